@@ -25,6 +25,8 @@ type entry struct {
 	at   time.Time
 	tag  string
 	only map[int]bool
+	// how many of the tagged stage's six further parameters (VERIF_MORE_<stage>_<k>) are present
+	more int
 }
 
 // Real file-triggered runs: every stage exports VERIF_STAGE=<i> and
@@ -58,6 +60,9 @@ func TestC15Runs(t *testing.T) {
 				b.WriteString("    stages: 50ms:10,50ms:3\n    iteration-frequency: 10ms\n")
 			}
 			b.WriteString(fmt.Sprintf("    parameters:\n      VERIF_STAGE: \"%d\"\n      VERIF_ONLY_%d: \"1\"\n", i+1, i+1))
+			for k := 0; k < 6; k++ {
+				b.WriteString(fmt.Sprintf("      VERIF_MORE_%d_%d: \"y\"\n", i+1, k))
+			}
 			if round%2 == 1 {
 				// an entry the operating system refuses to set (the KEY=VALUE typo for KEY: VALUE): the
 				// stage's other parameters are present all the same
@@ -78,6 +83,11 @@ func TestC15Runs(t *testing.T) {
 				for i := 1; i <= ns; i++ {
 					if os.Getenv("VERIF_ONLY_"+strconv.Itoa(i)) != "" {
 						e.only[i] = true
+					}
+				}
+				for k := 0; k < 6; k++ {
+					if os.Getenv("VERIF_MORE_"+e.tag+"_"+strconv.Itoa(k)) != "" {
+						e.more++
 					}
 				}
 				mu.Lock()
@@ -109,6 +119,11 @@ func TestC15Runs(t *testing.T) {
 			if os.Getenv("VERIF_ONLY_"+strconv.Itoa(i)) != "" {
 				left++
 			}
+			for k := 0; k < 6; k++ {
+				if os.Getenv("VERIF_MORE_"+strconv.Itoa(i)+"_"+strconv.Itoa(k)) != "" {
+					left++
+				}
+			}
 		}
 		mu.Lock()
 		es := append([]entry(nil), entries...)
@@ -118,7 +133,7 @@ func TestC15Runs(t *testing.T) {
 		seen := map[int]int{}
 		for _, e := range es {
 			tg, _ := strconv.Atoi(e.tag)
-			if tg == 0 || tg < maxTag || !e.only[tg] || len(e.only) != 1 {
+			if tg == 0 || tg < maxTag || !e.only[tg] || len(e.only) != 1 || e.more != 6 {
 				anomalies++
 				continue
 			}
